@@ -102,7 +102,8 @@ def run_one(specs, cblock, cleanup):
         edzed.reset_circuit()
         circuit = edzed.get_circuit()
         store = {}
-        circuit.set_persistent_data(store)
+        if not any(sp.get('no_storage') for sp in specs):
+            circuit.set_persistent_data(store)      # else: persistent=True blocks without any storage
         Probe, ProbeA, Cleanup = _mk_classes(log, flags)
         blocks = []
         for pos, sp in enumerate(specs):
@@ -252,7 +253,7 @@ def c_spec(sp):
         sc = dict(done=f"ADone {cz(d)}", never='ANever', poll=f"APoll {cz(d)}")
         sc['raise'] = f"ARaise {cz(d)}"
         a = f"(Some ({cz(tmo)}, {sc[script]}))"
-    return (f"(Build_ispec {cbool(sp['persistent'])} {rk} {a} {gk} {cbool(sp['initdef'])} "
+    return (f"(Build_ispec {cbool(sp['persistent'] and not sp.get('no_storage_all'))} {rk} {a} {gk} {cbool(sp['initdef'])} "
             f"{cbool(sp['hsets'])} {clist([cnat(d) for d in sp['dests']])})")
 
 
@@ -400,7 +401,8 @@ def gen_spec(rng, kind):
             sp['regular'] = 'sets'       # InitAsync.init_regular falls back to None (silently)
     else:
         sp['poll_i'] = rng.choice([3, 5, 7])          # ticks; poll instants are odd numbers of ticks
-        sp['poll_k'] = rng.choice([1, 1, 3])
+        sp['poll_k'] = rng.choice([0, 1, 1, 3])      # 0: the value is there at the very first poll, i.e.
+                                                      # before any block has been initialised
         tmo = rng.choice([0, -4, 4, 8, 12, 16, 20, 20])
         script = rng.choice(['poll', 'poll', 'poll', 'never'])
         sp['async'] = [tmo, script, sp['poll_i'] * sp['poll_k']]
@@ -428,6 +430,8 @@ def gen_base(rng, nmax):
             continue
         while sp['async'][2] in used:
             if sp['kind'] == 'valuepoll':
+                if sp['poll_k'] == 0:
+                    sp['poll_k'] = 1
                 sp['poll_i'] += 2
                 sp['async'][2] = sp['poll_i'] * sp['poll_k']
             else:
@@ -460,6 +464,11 @@ def gen_base(rng, nmax):
                 base[k]['dests'].append(k)          # an event to itself
     for sp in base:
         sp['dests'] = sorted(set(sp['dests']))
+    if rng.random() < 0.15:
+        # persistent=True blocks in a circuit that has no persistent storage at all
+        for sp in base:
+            sp['no_storage'] = True
+            sp['no_storage_all'] = True
     return base
 
 
@@ -484,6 +493,13 @@ DIRECTED = [
     [_p(regular='raises'), _p(persistent=True, restore='sets', dests=[0]), _p(initdef=True, dests=[0])],
     [_p(regular='raises'), _p(persistent=True, restore='sets', dests=[0]), _p(regular='sets', dests=[0]),
      dict(_p(dests=[0]), **{'async': [20, 'done', 2]})],
+    # a ValuePoll that has its value at the very first poll (before any block is initialised) sends it to
+    # a persistent block - in a circuit without any persistent storage, and in one with storage
+    [dict(_p(dests=[1]), kind='valuepoll', poll_i=3, poll_k=0, **{'async': [8, 'poll', 0]}, no_storage=True,
+          no_storage_all=True),
+     dict(_p(persistent=True, initdef=True), no_storage=True, no_storage_all=True)],
+    [dict(_p(dests=[1, 2]), kind='valuepoll', poll_i=5, poll_k=0, **{'async': [8, 'poll', 0]}),
+     _p(persistent=True, restore='sets', regular='sets'), _p(persistent=True, restore='noeffect', initdef=True)],
     # a restored state feeds an event back into the restoring block
     [_p(persistent=True, restore='sets', dests=[1]), _p(dests=[0])],
     [_p(persistent=True, restore='sets', dests=[1]), _p(regular='sets', dests=[0, 2]), _p(dests=[0])],
